@@ -232,6 +232,89 @@ def h_tmatching(h):
     h.prove_eq("T- from _findTm", Tm, Tm_stub)
 
 
+def h_tkappa(h):
+    """template.efficiencyFactor: which waves are integrated, from where, and how they are combined.
+    The matching is an arbitrary admissible tuple (deflagration: v- = vw; hybrid: v- = c_b < vw;
+    detonation: v+ = vw, v- < vw).  A rarefaction wave exists exactly when the plasma right behind the
+    wall moves in the bubble-centre frame (v- != vw); a shock wave exactly below the Jouguet velocity."""
+    t = make_template(h)
+    t.vJ = h.real("vJ", 0.05, 0.99, default=0.75)
+    vw = h.real("vw", 0.01, 0.99, default=0.56)
+    Tp = h.real("m_Tp", 0.01, 1e4, default=1.1)
+    Tm = h.real("m_Tm", 0.01, 1e4, default=1.0)
+    h.assume(gt(t.vJ, t.cb), "the Jouguet velocity is supersonic with respect to the broken phase")
+    if bool(vw <= t.vJ):
+        vm = vw if bool(vw <= t.cb) else t.cb
+        vp = h.real("m_vp", 0.001, 0.99, default=0.35)
+        h.assume(lt(vp, vm))
+    else:
+        vp = vw
+        vm = h.real("m_vm", 0.001, 0.99, default=0.6)
+        h.assume(AND(lt(vm, vw), ge(vm, t.cb)))
+    t.findMatching = lambda v: (vp, vm, Tp, Tm)
+    waves = []
+
+    def integratePlasma(v0, vw_, w0, shockWave=True):
+        k = len(waves)
+        sol = types.SimpleNamespace(
+            t=np.array([h.fresh("wave_v", -1, 1, default=0.1 + 0.01 * k), h.fresh("wave_v", -1, 1, default=0.05)],
+                       dtype=object if h.symbolic else float),
+            y=np.array([[h.fresh("wave_xi", 0, 1, default=0.6), h.fresh("wave_xi", 0, 1, default=0.7)],
+                        [h.fresh("wave_w", 0, 1e3, default=1.2), h.fresh("wave_w", 0, 1e3, default=1.1)]],
+                       dtype=object if h.symbolic else float))
+        waves.append(dict(v0=v0, vw=vw_, w0=w0, shock=shockWave, sol=sol))
+        return sol
+    t.integratePlasma = integratePlasma
+    simp = []
+
+    def simpson(y=None, x=None, **kw):
+        val = h.fresh("simpson", -10, 10, default=0.01 * (1 + len(simp)))
+        simp.append((np.asarray(y), np.asarray(x), val))
+        return val
+    h.patch_always(HT, simpson=simpson)
+    kappa = t.efficiencyFactor(vw)
+    shocks = [w for w in waves if w["shock"]]
+    rares = [w for w in waves if not w["shock"]]
+    h.prove("a shock wave is integrated exactly for vw < vJ", Cond(b=(len(shocks) == 1) == bool(vw < t.vJ) and len(shocks) <= 1))
+    moving = not _same_val(vm, vw)
+    h.prove("a rarefaction wave is integrated exactly when the plasma behind the wall moves (v- != vw)",
+            Cond(b=(len(rares) == 1) == moving and len(rares) <= 1))
+    mu_ = lambda a, b: (a - b) / (1 - a * b)
+    wp = core.sym_pow(Tp / t.Tnucl, t.mu) if h.symbolic else (Tp / t.Tnucl) ** t.mu
+    total = 0.0
+    k = 0
+    if shocks:
+        w = shocks[0]
+        h.prove("shock wave starts at the fluid velocity mu(vw, v+) with the enthalpy in front of the wall",
+                AND(eq(w["v0"], mu_(vw, vp)), eq(w["vw"], vw), eq(w["w0"], wp)))
+        y, x, val = simp[k]
+        k += 1
+        for i in range(2):
+            vi, xi, wi = w["sol"].t[i], w["sol"].y[0][i], w["sol"].y[1][i]
+            h.prove_eq(f"shock integrand xi^2 v^2 gamma^2 w (sample {i})", y[i], xi * xi * vi * vi * g2(vi) * wi, conc_rtol=1e-9)
+        total = total + val
+    if rares:
+        w = rares[0]
+        wm = g2(vp) * vp * wp / (g2(vm) * vm)
+        h.prove("rarefaction wave starts at mu(vw, v-) with the enthalpy behind the wall",
+                AND(eq(w["v0"], mu_(vw, vm)), eq(w["vw"], vw), eq(w["w0"], wm)))
+        y, x, val = simp[k]
+        for i in range(2):
+            vi, xi, wi = w["sol"].t[i], w["sol"].y[0][i], w["sol"].y[1][i]
+            h.prove_eq(f"rarefaction integrand xi^2 v^2 gamma^2 w (sample {i})", y[i], xi * xi * vi * vi * g2(vi) * wi, conc_rtol=1e-9)
+        total = total - val
+    h.prove_eq("kappa = 4 (shock integral - rarefaction integral) / (vw^3 alpha_n)", kappa,
+               4 * total / (vw * vw * vw * t.alN), conc_rtol=1e-9)
+
+
+def _same_val(a, b):
+    if isinstance(a, Sym) and isinstance(b, Sym):
+        return a.t.eq(b.t)
+    if isinstance(a, Sym) or isinstance(b, Sym):
+        return False
+    return a == b
+
+
 def h_maxal(h, part, cap=100.0):
     """template.maxAl: (a) the residual it brackets is the SAME wall-matching residual as _eqWall
     (evaluated through the real _eqWall with getVp / wFromAlpha pinned to the closure's v+ and w+);
@@ -339,6 +422,8 @@ HARNESSES = [
                 dict(_pin=dict(cs2=1 / 3, cb2=0.3, alN=0.05, psiN=0.9, wN=2.0, pN=0.4, Tn=1.5, vJ=0.85, vMin=0.01))],
                max_paths=100, timeout_s=60, axioms=AX,
                encodes=[HT.HydrodynamicsTemplateModel.findMatching], random_validation=2, concrete_alarms=False),
+    HarnessDef("template-efficiency-factor", h_tkappa, [dict()], max_paths=60, timeout_s=60, axioms=AX,
+               encodes=[HT.HydrodynamicsTemplateModel.efficiencyFactor], random_validation=2),
     HarnessDef("template-maxAl", h_maxal,
                [dict(part="residual"), dict(part="sentinels"),
                 # semi-concrete twins where the plain-float run of the real code (real scipy) takes the
